@@ -8,6 +8,10 @@ cases
   conn <code> <ctype> H<k> .. <body>
         HttpConn::write_response over a loop-back TCP pair with write_state = Response, then the error path of
         handle_http_conn; obs: <res1> <state1> <res2|-> <state2> <client transcript until EOF> rp= ct= c5= rp5= ct5= b5=
+  sess <k> <response> x k <response>
+        the same on a connection that has ALREADY carried k successful non-closing responses (complete 2xx answers of
+        earlier requests on a kept-alive connection and/or the 100-continue of the current exchange); obs as conn
+        plus pr<i>= pc<i>= pres<i>= for the earlier responses
   (response / body token syntax: see props/c06.py and harness/src/respcase.rs)
 """
 import c06 as _c06
@@ -17,7 +21,7 @@ RULE = ("corpus first; serializer level: for a family of responses covering ever
         "0..len+1 (small members) or around the head end / chunk boundaries / total-1 (large members), an error or Ok(0) at "
         "every poll_write index after every short write, a failing flush; body files shorter than declared by "
         "{all, len-1, half, 1} bytes, missing, unreadable (a directory); connection level over loop-back: the same body-source "
-        "faults plus refused / non-Normal / 1xx / 5xx responses, transcript read until EOF. Non-trivial = the write fails or is refused.")
+        "faults plus refused / non-Normal / 1xx / 5xx responses, transcript read until EOF; the same after a prefix of 0, 1 or 2 earlier complete 2xx responses and/or a 100-continue on the same connection (so that no-byte-sent is judged per call, not per connection). Non-trivial = the write fails or is refused.")
 ASSUMPTIONS = _c06.ASSUMPTIONS + [
     "bytes accepted by the socket = bytes counted by AsyncWriteCounter (kernel buffering between accept and delivery is not modelled; the property is stated on accepted bytes)",
     "a file deleted between head and body is the same code path as a file missing at open time: async_reader() opens the file only after the head was written",
@@ -38,6 +42,43 @@ def ser(close, code, ctype, headers, body, w=(), budget=None, flush_ok=1, pend=0
 def conn(code, ctype, headers, body):
     h = " ".join("%s %s" % (tok(n), tok(v)) for n, v in headers)
     return "conn %d %s H%d %s%s" % (code, ctype, len(headers), h + " " if headers else "", body)
+
+
+def _resp_toks(code, ctype, headers, body):
+    h = " ".join("%s %s" % (tok(n), tok(v)) for n, v in headers)
+    return "%d %s H%d %s%s" % (code, ctype, len(headers), h + " " if headers else "", body)
+
+
+def sess(pre, code, ctype, headers, body):
+    return "sess %d %s%s" % (len(pre), "".join(_resp_toks(*p) + " " for p in pre), _resp_toks(code, ctype, headers, body))
+
+
+EARLIER_2XX = [
+    (200, "none", [], "vec:x6869"),
+    (201, "v13", [("x-a", "b")], "str:x63726561746564"),
+    (204, "none", [], "static:x"),
+    (200, "v2", [], "es:6162,6364"),
+    (200, "v11", [], "file:5:x3031323334"),
+]
+CONTINUE_100 = (100, "none", [], "static:x")
+FAULTY = [
+    # refused with zero bytes
+    (200, "none", [("content-length", "5")], "vec:x6162"),
+    (200, "none", [("Transfer-Encoding", "chunked")], "vec:x6162"),
+    (200, "v13", [("content-type", "a/b"), ("Content-Type", "c/d")], "vec:x6162"),
+    (200, "v2", [("content-length", "5")], "es:6162"),
+    (200, "none", [], "drop"),
+    (200, "none", [], "getbody"),
+    # fails after the head / part of the body
+    (200, "none", [], "filemissing:5"),
+    (200, "v11", [], "file:10:x3031323334"),
+    (200, "none", [], "filedir:5"),
+    (200, "none", [], "tmpmissing:3"),
+    # succeeds
+    (200, "none", [], "vec:x6f6b"),
+    (503, "v13", [], "str:x627573"),
+    (200, "none", [], "filemissing:0"),
+]
 
 
 SMALL_FAMILY = [
@@ -126,6 +167,27 @@ def gen(rng, tier):
         for body in ("vec:x6162", "es:6162", "file:2:x6162"):
             cases.append(conn(200, "v13", [(name, "1")], body))
             cases.append(conn(200, "v13", [(name, "1"), (name.upper(), "2")], body))
+    # ---- connection level with earlier traffic on the same connection
+    for k in (0, 1, 2):
+        pres = [[]] if k == 0 else ([[p] for p in EARLIER_2XX] if k == 1 else
+                                    [[EARLIER_2XX[i], EARLIER_2XX[j]] for i in range(len(EARLIER_2XX)) for j in range(len(EARLIER_2XX)) if (i + j) % 2 == 0 or not quick])
+        for pre in pres:
+            for with100 in (False, True):
+                full = pre + ([CONTINUE_100] if with100 else [])
+                if not full:
+                    continue
+                for f in FAULTY:
+                    if quick and k == 2 and rng.random() < 0.5:
+                        continue
+                    cases.append(sess(full, *f))
+    for _ in range(80 if quick else 2500):
+        pre = [rng.choice(EARLIER_2XX) for _ in range(rng.randint(0, 2))] + ([CONTINUE_100] if rng.random() < 0.4 else [])
+        if not pre:
+            pre = [rng.choice(EARLIER_2XX)]
+        hs = [(_c06.rand_name(rng), _c06.rand_value(rng)) for _ in range(rng.choice([0, 1]))]
+        if rng.random() < 0.4:
+            hs.append((_c06.casemix(rng, rng.choice(_c06.NAMES3)), "1"))
+        cases.append(sess(pre, rng.choice([200, 404, 500]), rng.choice(["none", "v13", "v2"]), hs, _c06.rand_body(rng)))
     for _ in range(150 if quick else 3000):
         code = rng.choice([200, 201, 404, 500, 599, 100, 199])
         hs = [(_c06.rand_name(rng), _c06.rand_value(rng)) for _ in range(rng.choice([0, 1, 2]))]
@@ -135,10 +197,20 @@ def gen(rng, tier):
     return cases
 
 
+def _resp_len(t, at):
+    """number of tokens of the response starting at t[at]"""
+    k = int(t[at + 2][1:])
+    return 4 + 2 * k
+
+
 def _parse(c):
     t = c.split()
     kind = t[0]
     base = 2 if kind == "ser" else 1
+    if kind == "sess":
+        base = 2
+        for _ in range(int(t[1])):
+            base += _resp_len(t, base)
     k = int(t[base + 2][1:])
     body = t[base + 3 + 2 * k]
     rest = t[base + 4 + 2 * k:]
@@ -156,7 +228,8 @@ def classify(c, model):
         if "0" in rest[0][2:].split(","): f.append("w0")
         if rest[2] == "0": f.append("flushfail")
         return "ser:%s:%s:%s" % (bk, m[0] if m else "?", "+".join(f) or "nofault")
-    return "conn:%s:%s/%s/%s" % (bk, m[0] if m else "?", m[1] if len(m) > 1 else "?", m[2] if len(m) > 2 else "?")
+    tag = "conn" if kind == "conn" else "sess%s" % t[1]
+    return "%s:%s:%s/%s/%s" % (tag, bk, m[0] if m else "?", m[1] if len(m) > 1 else "?", m[2] if len(m) > 2 else "?")
 
 
 def nontrivial(c, model):
@@ -172,13 +245,29 @@ def extra_evidence(results):
             offs.add(int(rest[1]))
         kk = kind + ":" + body.split(":")[0]
         kinds[kk] = kinds.get(kk, 0) + 1
-    return dict(boundary_hits=dict(distinct_failure_offsets=len(offs), offsets_0_1=[o for o in (0, 1) if o in offs], cases_by_level_and_body=kinds))
+    zero_after_traffic = sum(1 for r in results if r[1].startswith("sess ") and " Response ok " in " " + r[3] + " ")
+    return dict(boundary_hits=dict(distinct_failure_offsets=len(offs), offsets_0_1=[o for o in (0, 1) if o in offs], cases_by_level_and_body=kinds,
+                                   zero_byte_refusal_after_earlier_traffic_then_500=zero_after_traffic))
 
 
 def shrink(c):
     kind, t, base, k, body, rest = _parse(c)
     def mk(t2):
         return " ".join(t2)
+    if kind == "sess":
+        n = int(t[1])
+        at = 2
+        spans = []
+        for _ in range(n):
+            ln = _resp_len(t, at)
+            spans.append((at, at + ln))
+            at += ln
+        for (a, b) in spans:          # drop one earlier response
+            yield mk(["sess", str(n - 1)] + t[2:a] + t[b:])
+        for (a, b) in spans:          # replace an earlier response by the smallest one
+            small = "200 none H0 vec:x61".split()
+            if t[a:b] != small:
+                yield mk(t[:a] + small + t[b:])
     # drop headers
     for i in range(k):
         t2 = t[:base + 2] + ["H%d" % (k - 1)] + t[base + 3:base + 3 + 2 * i] + t[base + 5 + 2 * i:]
@@ -207,6 +296,12 @@ def shrink(c):
 def neighbours(c, rng):
     kind, t, base, k, body, rest = _parse(c)
     out = []
+    if kind in ("conn", "sess"):
+        cur = " ".join(t[base:])
+        for pre in ([EARLIER_2XX[0]], [CONTINUE_100], [EARLIER_2XX[0], EARLIER_2XX[1]], [EARLIER_2XX[3], CONTINUE_100]):
+            out.append("sess %d %s%s" % (len(pre), "".join(_resp_toks(*p) + " " for p in pre), cur))
+            for f in FAULTY:
+                out.append(sess(pre, *f))
     if kind == "ser":
         n = len(t)
         for b in list(range(0, 160, 1)):
